@@ -530,7 +530,8 @@ impl Oracle {
                             if w.executed.contains(&id) {
                                 out.push(("transaction-sent-twice".into(), tag(&format!("tx {}", id))));
                             }
-                            if sv > 0 && w.balance - sv < w.locked(epoch) {
+                            // value the wallet sends to itself does not leave the wallet
+                            if sv > 0 && to_id(&snd.to) != Some(wid) && w.balance - sv < w.locked(epoch) {
                                 out.push((
                                     "send-leaves-balance-below-locked".into(),
                                     tag(&format!("tx {} balance {} value {} locked {} epoch {}", id, w.balance, sv, w.locked(epoch), epoch)),
@@ -543,7 +544,13 @@ impl Oracle {
                             w.executed.insert(id);
                             w.log.remove(&id);
                         }
-                        (Some(id), None) => out.push(("send-of-a-transaction-nobody-proposed".into(), tag(&format!("tx {}", id)))),
+                        (Some(id), None) => {
+                            if self.ws[i].executed.contains(&id) {
+                                out.push(("transaction-sent-twice".into(), tag(&format!("tx {} was already sent", id))));
+                            } else {
+                                out.push(("send-of-a-transaction-nobody-proposed".into(), tag(&format!("tx {}", id))));
+                            }
+                        }
                         (None, _) => {
                             // a proposal that was forced to abort after it ran lost its return value
                             if inv.exit_code.value() != FAULT_EXIT {
